@@ -187,6 +187,13 @@ class C06(Check):
         return None
 
 
+
+    def audits(self, tier):
+        # the serialisation of a typed message is repository code only under the pure-python fallback backend; the framing
+        # property is exercised there (and under pydantic) by the bounded native search - bounded, never counted as proved
+        from checks import native
+        return [lambda: native.audit_both_backends("C06.", tier)]
+
     def bounded_stand_in(self, tier, undecided):
         from checks import native
         return native.stand_in(['C06.', 'C17.'], tier, undecided)
